@@ -254,6 +254,17 @@ where
     } // end of hash_weigthed_hashmap
 
     /// return final signature.
+    /// verification hook : (register value per position, maximum reported by the tracker)
+    #[cfg(probminhash_verif)]
+    pub fn verif_registers(&self) -> (Vec<f64>, f64) {
+        (
+            (0..self.m)
+                .map(|k| self.maxvaluetracker.get_value(k))
+                .collect(),
+            self.maxvaluetracker.get_max_value(),
+        )
+    }
+
     pub fn get_signature(&self) -> &Vec<D> {
         &self.signature
     }
